@@ -330,7 +330,17 @@ func c01Run(c *core.Ctx) *core.Result {
 		view = src
 		fs = newSynthFSReaders(src, R)
 	} else {
-		if err := tree.Materialise(srcDir, src); err != nil {
+		// unix sockets in an on-disk source: the view exposes them as empty
+		// regular entries (the walk does not carry the socket bit, opening
+		// one fails and is answered with no content)
+		onDisk := src.Clone()
+		for i := range onDisk.Entries {
+			if e := &onDisk.Entries[i]; e.Type == tree.Fifo && e.LinkTo == "" && onDisk.GroupOf(e.Path) == "" && R.P(1, 3) {
+				e.Type = tree.Sock
+				r.Count("sockets_in_the_source", 1)
+			}
+		}
+		if err := tree.Materialise(srcDir, onDisk); err != nil {
 			r.Inconclusive = "materialise src: " + err.Error()
 			return r
 		}
@@ -339,6 +349,11 @@ func c01Run(c *core.Ctx) *core.Result {
 		if err != nil {
 			r.Inconclusive = "snapshot src: " + err.Error()
 			return r
+		}
+		for i := range view.Entries {
+			if e := &view.Entries[i]; e.Type == tree.Sock {
+				e.Type, e.Data, e.Size = tree.File, []byte{}, 0
+			}
 		}
 		fs, err = fsutil.NewFS(srcDir)
 		if err != nil {
